@@ -1,4 +1,5 @@
 import AslProofs.HttpFrame
+import AslProofs.HttpTarget
 import AslProps.C10Spec
 /-!
 # C10 — HTTP client and server exchange exact methods, headers, status and bodies
@@ -1112,5 +1113,67 @@ example : rangeOf 20 5 9 = some (5, 9) := by decide
 example : ([57, 57] : Bytes) ≠ [] ∧ exampleSent.body ≠ [] := by decide
 example : header (clientMsg exampleSent.method exampleSent.target exampleSent.host exampleSent.port true
     (setHeader exampleSent.hs sContentLength [57, 57]) exampleSent.body).headers sContentLength = [51] := by decide
+
+/-! ## the request target: decoded path, query string and fragment as the handler sees them (`HttpRequest::read`) -/
+
+/-- the text of a request target: an encoded path `t`, then `?query` and `#fragment` if present -/
+def targetText (t : Bytes) (q f : Option Bytes) : Bytes :=
+  t ++ ((match q with | some q => 63 :: q | none => []) ++ (match f with | some f => 35 :: f | none => []))
+
+/-- **target_parts_exact.**  For every non-empty encoded path `t` without `?` and `#`, every query string without `#`
+(it may contain `?`) and every fragment (any bytes, `?` included), each present or not: `HttpRequest::read` splits the
+target into exactly the decoded path (`Url::decode`, cut at a NUL, `..` removed), that query string and that fragment. -/
+theorem target_parts_exact (t : Bytes) (q f : Option Bytes) (ht : t ≠ []) (h35 : 35 ∉ t) (h63 : 63 ∉ t)
+    (hq : ∀ q', q = some q' → 35 ∉ q') :
+    splitTarget (targetText t q f) = (rmDotDot (fixNul (AslModel.Codec.urlDecode t)), q.getD [], f.getD []) := by
+  unfold targetText
+  cases q with
+  | none =>
+    cases f with
+    | none => simpa [AslProofs.HttpTarget.pathOf] using AslProofs.HttpTarget.split_path_only t h35 h63
+    | some f => simpa [AslProofs.HttpTarget.pathOf] using AslProofs.HttpTarget.split_path_fragment t f ht h35 h63
+  | some q =>
+    cases f with
+    | none => simpa [AslProofs.HttpTarget.pathOf] using AslProofs.HttpTarget.split_path_query t q ht h35 h63 (hq q rfl)
+    | some f =>
+      simpa [AslProofs.HttpTarget.pathOf] using AslProofs.HttpTarget.split_path_query_fragment t q f ht h35 h63 (hq q rfl)
+
+/-- **encoded_path_observed.**  A path `p` (not empty, no NUL, no `..`) sent as `Url::encode(p, component)` — in the
+full-URL mode, which leaves `?` and `#` literal, `p` itself must not contain them — followed by any query string and
+fragment: the handler's `path()` is exactly `p`, its `querystring()` and `fragment()` exactly what was sent. -/
+theorem encoded_path_observed (p : Bytes) (comp : Bool) (q f : Option Bytes) (hp : p ≠ []) (h0 : 0 ∉ p)
+    (hdd : rmDotDot p = p) (hc : comp = false → 35 ∉ p ∧ 63 ∉ p) (hq : ∀ q', q = some q' → 35 ∉ q') :
+    splitTarget (targetText (AslModel.Codec.urlEncode p comp) q f) = (p, q.getD [], f.getD []) := by
+  have n35 : 35 ∉ AslModel.Codec.urlEncode p comp := fun m =>
+    have ⟨a, b⟩ := AslProofs.HttpTarget.encode_delims comp p 35 m (Or.inl rfl); (hc a).1 b
+  have n63 : 63 ∉ AslModel.Codec.urlEncode p comp := fun m =>
+    have ⟨a, b⟩ := AslProofs.HttpTarget.encode_delims comp p 63 m (Or.inr (Or.inl rfl)); (hc a).2 b
+  rw [target_parts_exact _ q f (AslProofs.HttpTarget.encode_ne_nil comp p hp) n35 n63 hq,
+    AslProofs.Codec.url_roundtrip, AslProofs.HttpTarget.fixNul_id p h0, hdd]
+
+/-- **handler_sees_sent_target.**  The same on the connection: any well-formed request (any sender, framing,
+fragmentation, whatever follows) whose target is the encoding of `p` with a query string and a fragment reaches the
+handler with `path() = p`, `querystring() = q`, `fragment() = f`. -/
+theorem handler_sees_sent_target (x : Wire) (h : x.WF) (rest : Bytes) (i : Inp) (hi : Live i) (hd : i.data = x.bytes ++ rest)
+    (p : Bytes) (comp : Bool) (q f : Option Bytes) (hp : p ≠ []) (h0 : 0 ∉ p)
+    (hdd : rmDotDot p = p) (hc : comp = false → 35 ∉ p ∧ 63 ∉ p) (hq : ∀ q', q = some q' → 35 ∉ q')
+    (ht : x.target = targetText (AslModel.Codec.urlEncode p comp) q f) :
+    (readRequest i).1.path = p ∧ (readRequest i).1.querystring = q.getD [] ∧ (readRequest i).1.fragment = f.getD [] := by
+  obtain ⟨i', h1, _⟩ := wire_request_exact x h rest i hi hd
+  rw [h1]
+  simp only [Wire.expected, ht, encoded_path_observed p comp q f hp h0 hdd hc hq, and_self]
+
+/-- `/a b#?` sent in the full-URL mode cannot carry `#`/`?`; in component mode `a#?/ b` can: `a%23%3F%2F%20b?k=v#x?y` -/
+example : splitTarget (targetText (AslModel.Codec.urlEncode [97, 35, 63, 47, 32, 98] true) (some [107, 61, 118]) (some [120, 63, 121]))
+    = ([97, 35, 63, 47, 32, 98], [107, 61, 118], [120, 63, 121]) := by decide
+example : ([97, 35, 63, 47, 32, 98] : Bytes) ≠ [] ∧ (0 : UInt8) ∉ ([97, 35, 63, 47, 32, 98] : Bytes) ∧
+    rmDotDot [97, 35, 63, 47, 32, 98] = [97, 35, 63, 47, 32, 98] ∧ (35 : UInt8) ∉ ([107, 61, 118] : Bytes) := by decide
+/-- a well-formed wire request with such a target: the raw example with target `/u?k=v#x?y` -/
+example : ({ exampleRaw with target := targetText (AslModel.Codec.urlEncode [47, 117] false) (some [107, 61, 118]) (some [120, 63, 121]) } : Wire).WF := by
+  refine ⟨?_, ?_, Or.inr rfl, by decide, ?_, codingOk_of_chunked (by decide), ?_⟩
+  · unfold WFWord; decide
+  · unfold WFWord; decide
+  · unfold WFHeaders WFName WFValue FitsLine; decide
+  · exact reads_of_rfc_chunked _ _ _ exampleChunked (by decide) (by decide) (by decide)
 
 end C10
